@@ -67,6 +67,9 @@ CLAIMED['C16'] = ("every sequence of k<=4 statement commands (well-formed execut
 CLAIMED['C15'] = ("for 'select ?' with one string/blob parameter of 0..3 arbitrary symbolic bytes (inline in four string types, or as long data) the text produced by the real bindStmtArgs + GetRewriteSQL + escapeSQL is the template with exactly one literal that a MySQL literal scanner decodes to the bound bytes, under the default sql_mode and under NO_BACKSLASH_ESCAPES; integer parameters of every width/sign at boundary values and NULL render as the bound number",
     "integers are boundary values enumerated concretely (formatting of symbolic integers is not modelled by the engine), dates/times/floats/decimals are not covered; one placeholder; the packet decoding of handleStmtExecute is C16/C38's subject; known findings C15-no-backslash-escapes")
 
+CLAIMED['C13'] = ("the rows built by the real BuildBinaryResultset/AppendBinaryValue decode, with an independent binary-protocol decoder, to the values given: result sets of 1..2 rows x 1..2 columns over eight column types with every NULL pattern (symbolic integers over the full range of each width, symbolic 0..2-byte strings); and, through the real ParseText first, one integer column of every width/sign (symbolic 1..3-digit texts and the extreme values), one DATE column (every month/day text of four years), one DATETIME/TIMESTAMP column (symbolic hours, fractional seconds, zero dates) and one TIME column (negative and >24h values, symbolic digits)",
+    "floats and decimals are not covered (floating point and big.Int arithmetic are outside the encoder); calendar arithmetic of package time runs on concrete month/day values; strings longer than 2 bytes (hence the 2/3/8-byte length prefixes) outside the bound; Session.writeResponse's choice of the binary path is not covered; known finding C13-date-unparseable-becomes-zero-date")
+
 NA_REASON = "check not built yet (work in progress; see DESIGN.md section 3 for the planned harness)"
 NA = {}
 
